@@ -7,8 +7,8 @@
   GoneSecure if it was not encrypted, StillSecure if it was; `endSession_spec`: state becomes
   plaintext, GoneInsecure iff it was encrypted, nothing is sent and no event raised otherwise;
   `processDisconnectedTLV_run` (peer's disconnect, reached only through an authenticated data
-  message: Proofs.ConvData): state becomes finished, GoneInsecure iff it was encrypted, all keys and
-  SMP state dropped. `send_finished`: in the finished state Send returns an error and emits nothing
+  message: Proofs.ConvData): state becomes finished, GoneInsecure iff it was encrypted, SMP state and
+  all keys dropped except (repaired code) the MAC keys still to be revealed. `send_finished`: in the finished state Send returns an error and emits nothing
   derived from the text; `send_requireEncryption`: under required encryption Send emits exactly the
   query message and queues the text (in order); `send_plain`: otherwise the text goes out per the
   plaintext policy. Retransmission (at most once, queued texts once in order, last message once with
@@ -112,7 +112,8 @@ theorem endSession_spec (K : Crypto) (s : MState)
 theorem processDisconnectedTLV_run (s : MState) :
     runM processDisconnectedTLV s = .ok (.ok (),
       { s with
-        conv := { s.conv with lastMessageStateChange := none, msgState := .finished, smp := {}, ake := none, keys := {} }
+        conv := { s.conv with lastMessageStateChange := none, msgState := .finished, smp := {}, ake := none,
+                              keys := { oldMACKeys := s.conv.keys.oldMACKeys ++ s.conv.keys.macHistory.map (·.key) } }
         events := s.events ++ (if s.conv.msgState = .encrypted then ["sec:0"] else []) }) := by
   first | exact Otr.processDisconnectedTLV_run | exact @Otr.processDisconnectedTLV_run | (apply Otr.processDisconnectedTLV_run <;> assumption) | (intros; apply Otr.processDisconnectedTLV_run <;> assumption)
 
